@@ -91,8 +91,10 @@ def run_check(prop, tier, seed, replay=None):
         cases = corpus_cases(prop) + prop.cases(rng, tier)
     execute(cases)
     if not replay:
-        more = prop.followup(cases, rng, tier)
-        if more:
+        for _round in range(4):
+            more = prop.followup(cases, rng, tier)
+            if not more:
+                break
             execute(more)
             cases += more
 
